@@ -58,7 +58,7 @@ CHECKS = {
    text="For each count vector every downlink message index of the fault-free conversation is combined with {peer closes instead, ff ff ff, 00, truncated message, 2047/2048/4096 octets of ff (around the emulator's read buffer), the message with its PDU choice index destroyed, with its outer length determinant beyond the end, with its IE count 256 too large}; the real process runs under strace, whose sendmsg/recvmsg history is the ground truth of what the emulator consumed; once it consumed the fault it must exit non-zero without the banner and without sending again, and it must always terminate within the horizon.",
    note="strace as monitor; the message after Registration Complete is exempt for garbage (per the property); faulty octets that the reference codec still decodes are out of scope; a run that outlives the horizon has its whole process group killed; thorough replays conversations with real sleeps to validate the time shim"),
  "C20": dict(cat="model_checking", sec="5.20", tech="controlled cooperative scheduler over the instrumented real code: exhaustive enumeration of schedules up to a preemption bound, plus a separate free-running -race pass",
-   text="The repository packages are rebuilt through an overlay that inserts a yield in front of every statement that reads or writes a package-level variable mutated at run time (found by a two-pass AST analysis of the current tree: assignments also through index/field/pointer, inc/dec, address-of, method calls on visible variables, copy/append destinations, cross-package), and every statement that uses a local alias of such storage (intra-procedural taint: values loaded from a shared table / cache / pool, results of functions that return them), a coarse yield at the entry of every function of the instrumented packages, and replaces sync by a scheduler-aware version (Mutex/RWMutex/Once, and a Pool that shares as much as sync.Pool's contract allows); for all 66 pairs of 11 operation kinds (each thread on its own UE context, different message types per thread) every schedule with <=2 preemptions (quick) / <=3 and triples (thorough) over the first 8/16 dynamic instances of each statement site and the first 1/2 of each function entry per thread is executed and each thread's output compared with the sequential one; deadlocks are violations. Because cooperative hand-offs hide races from the detector, the same bodies also run free on 2/8/64 goroutines in a binary built with -race.",
+   text="The repository packages are rebuilt through an overlay that inserts a yield in front of every statement that reads or writes a package-level variable mutated at run time (found by a two-pass AST analysis of the current tree: assignments also through index/field/pointer, inc/dec, address-of, method calls on visible variables, copy/append destinations, cross-package), and every statement that uses a local alias of such storage (intra-procedural taint: values loaded from a shared table / cache / pool, results of functions that return them), a coarse yield at the entry of every function of the instrumented packages, and replaces sync by a scheduler-aware version (Mutex/RWMutex/Once, and a Pool that shares as much as sync.Pool's contract allows); for pairs of 21 operation kinds (NEA/NIA short and 300-octet messages, NAS protect/unprotect, NGAP and NAS codecs, NAS constructors, NGAP builders, key derivation with OPc and OP only, Milenage+KDF, SUCI/CreateUE/capability, identifier conversions; each thread on its own UE context, keys and messages, different message types per thread; quick: every operation against itself, every pair inside a family sharing code, every pair involving a codec; thorough: all 231 pairs) every schedule with <=2 preemptions (quick) / <=3 and triples (thorough) over the first 8/16 dynamic instances of each statement site and the first 1/2 of each function entry per thread is executed and each thread's output compared with the sequential one; deadlocks are violations. Because cooperative hand-offs hide races from the detector, the same bodies also run free on 2/8/64 goroutines in a binary built with -race.",
    note="only sequentially consistent interleavings at the inserted points; the -race pass is a dynamic detector (not an enumeration); G up to 64 applies to the free-running pass only"),
  "C08": dict(cat="exploration", sec="5.8", tech="exhaustive enumeration of optional-IE subsets (all 2^k for k<=17; every k in thorough), IE lengths, contents and wire orders per message type, with round-trip oracles",
    text="For each of the 44 plain message types of the frozen TS 24.501 table every optional-IE subset (all 2^k for k<=17, none/all/singles/all-but-one/pairs/triples above; thorough: all 2^k for every message, 18.4 M cases), every IE at boundary lengths within its capacity with three contents alone, with its neighbours and next to every other single IE, mandatory LV/LV-E lengths, every permutation of every choice of up to four optional IEs and every adjacent transposition on the wire; decode(encode(m)) == m, encode(decode(canonical bytes)) == bytes, any order decodes to the same message, and all 256 message types x EPDs: unknown types are errors.",
